@@ -27,6 +27,9 @@ def parseReply (t : String) : Option (Option Reply) :=   -- some none = not deli
     if fs.all Option.isSome then some (some (.params (fs.filterMap id))) else none
   | ["cap", "ok"] => some (some (.capability false))
   | ["cap", "zero"] => some (some (.capability true))
+  -- a reply that leaves the request or the response type out: `ReadFrom` starts from the empty default
+  -- masks of `NewCapabilityPackage` (Codec.Basic.Capability.dec), so that type is all zero
+  | ["cap", "noreq"] | ["cap", "nores"] | ["cap", "empty"] => some (some (.capability true))
   | ["eed"] => some (some .eed)
   | ["ot"] => some (some .other)
   | ["env", _] => some none
